@@ -119,3 +119,89 @@ Proof.
       assert (u * N <= / 1048576 * N) by (apply Rmult_le_compat_r; lra). lra. }
     apply (unit_dec_real_far u r Z R A T1 T2 U (conj Hr Hs) Hreg R0 HZ A0 HA HT1 HT2 H).
 Qed.
+
+(* ---------------------------------------------------------------- cplx_mod (floating-point/mt.c, builtin complex):
+   |a| * sqrt (1 + (b/a)^2) with five roundings; u = unit roundoff, eta = the absolute error of a rounding that underflows;
+   d = fl (b/a), e = fl (d*d), s = fl (1 + e), q = fl (sqrt s), ab = fl (|a| * q) *)
+Lemma abs_sq_r : forall x : R, Rabs x * Rabs x = x * x.
+Proof. intro x. unfold Rabs. destruct (Rcase_abs x); ring. Qed.
+
+Lemma sqrt_close : forall s w, 1 <= s -> 1 <= w -> Rabs (sqrt s - sqrt w) <= Rabs (s - w) / 2.
+Proof.
+  intros s w Hs Hw. set (x := sqrt s). set (y := sqrt w).
+  assert (Ex : x * x = s) by (apply sqrt_sqrt; lra). assert (Ey : y * y = w) by (apply sqrt_sqrt; lra).
+  assert (X1 : 1 <= x). { unfold x. rewrite <- sqrt_1. apply sqrt_le_1_alt. exact Hs. }
+  assert (Y1 : 1 <= y). { unfold y. rewrite <- sqrt_1. apply sqrt_le_1_alt. exact Hw. }
+  rewrite <- Ex, <- Ey. replace (x * x - y * y) with ((x - y) * (x + y)) by ring.
+  rewrite Rabs_mult, (Rabs_pos_eq (x + y)) by lra.
+  pose proof (Rabs_pos (x - y)). clearbody x y. 
+  assert (Rabs (x - y) * 2 <= Rabs (x - y) * (x + y)) by (apply Rmult_le_compat_l; lra). lra.
+Qed.
+
+Lemma cmod_real_err : forall u eta a t d e s q ab,
+  0 < u <= / 1048576 -> 0 <= eta <= u * u -> 0 <= a -> Rabs t <= 1 ->
+  Rabs (d - t) <= u * Rabs t + eta -> Rabs d <= 1 ->
+  0 <= e -> Rabs (e - d * d) <= u * (d * d) + eta ->
+  1 <= s -> Rabs (s - (1 + e)) <= u * (1 + e) ->
+  Rabs (q - sqrt s) <= u * sqrt s ->
+  Rabs (ab - a * q) <= u * (a * q) + eta ->
+  Rabs (ab - a * sqrt (1 + t * t)) <= 6 * u * (a * sqrt (1 + t * t)) + eta.
+Proof.
+  intros u eta a t d e s q ab [U0 U1] [E0 E1] Ha Ht Hd Hd1 He0 He Hs1 Hs Hq Hab.
+  assert (UU : 0 <= u * u <= u / 1048576).
+  { split. apply Rmult_le_pos; lra. assert (u * u <= / 1048576 * u) by (apply Rmult_le_compat_r; lra). lra. }
+  set (w := 1 + t * t). set (y := sqrt w).
+  assert (T2 : 0 <= t * t <= 1).
+  { rewrite <- (abs_sq_r t) at 1. rewrite <- (abs_sq_r t). pose proof (Rabs_pos t). split. apply Rmult_le_pos; lra.
+    assert (Rabs t * Rabs t <= 1 * 1) by (apply Rmult_le_compat; lra). lra. }
+  assert (W : 1 <= w <= 2) by (unfold w; lra).
+  assert (D2 : 0 <= d * d <= 1).
+  { rewrite <- (abs_sq_r d). pose proof (Rabs_pos d). split. apply Rmult_le_pos; lra.
+    assert (Rabs d * Rabs d <= 1 * 1) by (apply Rmult_le_compat; lra). lra. }
+  (* 1. d^2 vs t^2 *)
+  assert (S1 : Rabs (d * d - t * t) <= 2 * (u + eta)).
+  { replace (d * d - t * t) with ((d - t) * (d + t)) by ring. rewrite Rabs_mult.
+    assert (Rabs (d - t) <= u + eta). { assert (u * Rabs t <= u * 1) by (apply Rmult_le_compat_l; lra). lra. }
+    assert (Rabs (d + t) <= 2). { apply Rle_trans with (1 := Rabs_triang _ _). lra. }
+    pose proof (Rabs_pos (d - t)). pose proof (Rabs_pos (d + t)).
+    assert (Rabs (d - t) * Rabs (d + t) <= (u + eta) * 2) by (apply Rmult_le_compat; lra). lra. }
+  (* 2. e vs t^2 *)
+  assert (S2 : Rabs (e - t * t) <= 3 * u + 3 * eta).
+  { replace (e - t * t) with ((e - d * d) + (d * d - t * t)) by ring. apply Rle_trans with (1 := Rabs_triang _ _).
+    assert (u * (d * d) <= u * 1) by (apply Rmult_le_compat_l; lra). lra. }
+  (* 3. s vs w *)
+  assert (S3 : Rabs (s - w) <= 6 * u).
+  { unfold w. replace (s - (1 + t * t)) with ((s - (1 + e)) + (e - t * t)) by ring. apply Rle_trans with (1 := Rabs_triang _ _).
+    pose proof (Rabs_le_inv _ _ S2) as S2'.
+    assert (u * (1 + e) <= u * (2 + 3 * u + 3 * eta)) by (apply Rmult_le_compat_l; lra).
+    assert (0 <= u * eta <= u * (u * u)). { split. apply Rmult_le_pos; lra. apply Rmult_le_compat_l; lra. }
+    assert (u * (u * u) <= u * (u / 1048576)) by (apply Rmult_le_compat_l; lra).
+    lra. }
+  (* 4. sqrt *)
+  assert (S4 : Rabs (sqrt s - y) <= 3 * u).
+  { unfold y. apply Rle_trans with (1 := sqrt_close s w Hs1 (proj1 W)). lra. }
+  assert (Y : 1 <= y <= 3 / 2).
+  { assert (Ey : y * y = w) by (apply sqrt_sqrt; lra). assert (0 <= y) by apply sqrt_pos. split.
+    - unfold y. rewrite <- sqrt_1. apply sqrt_le_1_alt. lra.
+    - destruct (Rle_lt_dec y (3 / 2)); [assumption|exfalso]. assert (3 / 2 * (3 / 2) <= y * y) by (apply Rmult_le_compat; lra). lra. }
+  assert (S5 : Rabs (q - y) <= 46 / 10 * u).
+  { replace (q - y) with ((q - sqrt s) + (sqrt s - y)) by ring. apply Rle_trans with (1 := Rabs_triang _ _).
+    pose proof (Rabs_le_inv _ _ S4) as S4'. assert (u * sqrt s <= u * (3 / 2 + 3 * u)) by (apply Rmult_le_compat_l; lra). lra. }
+  (* 5. the product *)
+  apply Rabs_le_inv in S5.
+  assert (Q : 0 <= q <= y * (1 + 46 / 10 * u)).
+  { split; [lra|]. assert (46 / 10 * u * 1 <= 46 / 10 * u * y) by (apply Rmult_le_compat_l; lra). lra. }
+  assert (AY : 0 <= a * y) by (apply Rmult_le_pos; lra).
+  assert (AQ : a * q <= a * (y * (1 + 46 / 10 * u))) by (apply Rmult_le_compat_l; lra).
+  assert (AQ0 : 0 <= a * q) by (apply Rmult_le_pos; lra).
+  replace (ab - a * y) with ((ab - a * q) + a * (q - y)) by ring. apply Rle_trans with (1 := Rabs_triang _ _).
+  rewrite Rabs_mult, (Rabs_pos_eq a) by assumption.
+  assert (K1 : a * Rabs (q - y) <= a * (46 / 10 * u)) by (apply Rmult_le_compat_l; [assumption|apply Rabs_le; lra]).
+  assert (K2 : a * (46 / 10 * u) <= a * y * (46 / 10 * u)).
+  { assert (a * 1 <= a * y) by (apply Rmult_le_compat_l; lra). assert (0 <= 46 / 10 * u) by lra.
+    assert (a * 1 * (46 / 10 * u) <= a * y * (46 / 10 * u)) by (apply Rmult_le_compat_r; lra). lra. }
+  assert (K3 : u * (a * q) <= u * (a * (y * (1 + 46 / 10 * u)))) by (apply Rmult_le_compat_l; lra).
+  assert (K4 : 0 <= a * y * (u * u) <= a * y * (u / 1048576)).
+  { split. apply Rmult_le_pos; lra. apply Rmult_le_compat_l; lra. }
+  lra.
+Qed.
